@@ -27,6 +27,9 @@ struct Explorer
   int depth = 0;
   long long resume = -1;
   std::vector<Op> hist;
+  std::set<unsigned> sampled;
+  bool stop = false;
+  long long since_poll = 0;
   int root_only = -1;  // phase 1: only this child of the root
   const std::vector<std::pair<std::vector<Op>, long long>> *pre = nullptr;
   char *okflags = nullptr;
@@ -61,14 +64,16 @@ struct Explorer
     vr::begin_case(idx, R.tag() + "|" + (under ? std::string("payload accessed in under-aligned storage") : cls), replay);
     Result r = R.run(hist, false);
     if (count) {
-      vr::stat("states");
-      vr::stat("traces");
-      vr::stat("transitions", r.ops);
-      vr::stat(std::string("histories_len") + std::to_string(hist.size()));
+      Counters &c = counters();
+      c.states++;
+      c.transitions += r.ops;
+      c.len[hist.size() < 8 ? hist.size() : 7]++;
       vr::outcome(vr::fnv(last.kind, 2, r.digest));
-      vr::sample(replay + (r.failed ? "  -> VIOLATION" : "  -> as the model"), pname() + last.kind);
+      unsigned key = (unsigned)(last.kind[0] * 256 + last.kind[1]) * 2 + (r.failed ? 1 : 0);
+      if (sampled.insert(key).second)
+        vr::sample(replay + (r.failed ? "  -> VIOLATION" : "  -> as the model"), pname() + last.kind + (r.failed ? "!" : ""));
       if (r.failed) {
-        vr::stat("violating_histories");
+        c.violating++;
         report(r.sig, replay, r.detail + " [history " + replay + "]");
       }
     }
@@ -88,6 +93,16 @@ struct Explorer
         continue;
       if (resume >= idx + w)
         continue;  // finished before the restart
+      if (stop)
+        return;
+      if (++since_poll >= 2048) {
+        since_poll = 0;
+        if (vr::deadline_passed()) {
+          stop = true;
+          vr::capped(pname() + ": deadline passed inside a shard, remaining histories of the shard not explored");
+          return;
+        }
+      }
       hist.push_back(ops[c]);
       bool ok;
       if (resume >= idx)
@@ -149,8 +164,8 @@ struct Explorer
     }
     char *okflags = (char *)mmap(nullptr, pre.size() + 1, PROT_READ | PROT_WRITE, MAP_SHARED | MAP_ANONYMOUS, -1, 0);
     memset(okflags, 0, pre.size() + 1);
-    vr::run_sharded((int)first.size(), [&](int shard, long long resume_after) {
-      partial_enter(shard);
+    run_sharded_2level((int)first.size(), [&](int shard, long long resume_after) {
+      partial_enter(shard, resume_after);
       Explorer e;
       e.resume = resume_after;
       e.depth = ls;
@@ -158,6 +173,7 @@ struct Explorer
       e.pre = &pre;
       e.okflags = okflags;
       e.dfs(Model(), 0, 0);
+      counters_flush();
     });
     std::vector<int> sound;
     for (size_t i = 0; i < pre.size(); i++)
@@ -167,8 +183,8 @@ struct Explorer
     vr::stat("shards", (long long)first.size() + (long long)sound.size());
     vr::stat("prefixes_sound", (long long)sound.size());
     vr::stat("prefixes_pruned", (long long)(pre.size() - sound.size()));
-    vr::run_sharded((int)sound.size(), [&](int shard, long long resume_after) {
-      partial_enter(1000 + shard);
+    run_sharded_2level((int)sound.size(), [&](int shard, long long resume_after) {
+      partial_enter(1000 + shard, resume_after);
       if (vr::deadline_passed()) {
         vr::capped(pname() + ": deadline passed before prefix shard " + std::to_string(shard));
         return;
@@ -181,6 +197,7 @@ struct Explorer
       for (size_t i = 0; i < e.hist.size(); i++)
         model_apply(m, e.hist[i]);
       e.dfs(m, ls, pre[sound[shard]].second);
+      counters_flush();
     });
   }
 
